@@ -195,6 +195,9 @@ fn worker(id: &str, tier: Tier, seed: u64, shard: u64, of: u64, out: &str) {
     }
 }
 
+/// Shards also run by the build without debug assertions.
+const NDA_SHARDS: u64 = 4;
+
 fn check(id: &str, tier: Tier, seed: u64) -> i32 {
     let Some(prop) = props::find(id) else {
         eprintln!("unknown property {id}");
@@ -209,11 +212,38 @@ fn check(id: &str, tier: Tier, seed: u64) -> i32 {
     let _ = std::fs::create_dir_all(&tmp);
     let pid = std::process::id();
 
+    // Workers: the shards of the ordinary build (optimised, debug assertions and overflow checks
+    // on), plus a few shards of the same partition run by the build without debug assertions
+    // (`--profile nda`, what users ship): the same cases under both build configurations.
+    struct Spec {
+        label: String,
+        exe: std::path::PathBuf,
+        shard: u64,
+        of: u64,
+    }
+    let mut specs: Vec<Spec> = (0..spawn_shards)
+        .map(|shard| Spec {
+            label: format!("{shard}"),
+            exe: exe.clone(),
+            shard,
+            of: nshards,
+        })
+        .collect();
+    let nda_exe = engine::verif_root().join("harness/target/nda/vp");
+    let nda_shards = if nda_exe.exists() && spawn_shards > 0 && std::env::var("VERIF_NO_NDA").is_err() { NDA_SHARDS.min(nshards) } else { 0 };
+    for shard in 0..nda_shards {
+        specs.push(Spec {
+            label: format!("nda-{shard}"),
+            exe: nda_exe.clone(),
+            shard,
+            of: nshards,
+        });
+    }
     let mut children = vec![];
-    for shard in 0..spawn_shards {
-        let out = tmp.join(format!("{id}-{pid}-{shard}.json"));
+    for spec in specs {
+        let out = tmp.join(format!("{id}-{pid}-{}.json", spec.label));
         let _ = std::fs::remove_file(&out);
-        let child = Command::new(&exe)
+        let child = Command::new(&spec.exe)
             .args([
                 "worker",
                 id,
@@ -222,16 +252,16 @@ fn check(id: &str, tier: Tier, seed: u64) -> i32 {
                 "--seed",
                 &seed.to_string(),
                 "--shard",
-                &shard.to_string(),
+                &spec.shard.to_string(),
                 "--of",
-                &nshards.to_string(),
+                &spec.of.to_string(),
                 "--out",
             ])
             .arg(&out)
             .stdin(Stdio::null())
             .spawn();
         match child {
-            Ok(c) => children.push((shard, c, out)),
+            Ok(c) => children.push((spec, c, out)),
             Err(e) => {
                 eprintln!("cannot spawn worker: {e}");
                 return 2;
@@ -243,8 +273,9 @@ fn check(id: &str, tier: Tier, seed: u64) -> i32 {
     let limit = Duration::from_secs(tier.pick(1500, 6 * 3600));
     let mut merged = Report::default();
     let mut infra = vec![];
-    let mut crashed: Vec<(u64, i32)> = vec![];
-    for (shard, mut child, out) in children {
+    let mut crashed: Vec<(Spec, i32)> = vec![];
+    for (spec, mut child, out) in children {
+        let shard = spec.label.clone();
         let status = loop {
             match child.try_wait() {
                 Ok(Some(st)) => break Some(st),
@@ -271,7 +302,7 @@ fn check(id: &str, tier: Tier, seed: u64) -> i32 {
             Some(st) => {
                 use std::os::unix::process::ExitStatusExt;
                 match st.signal() {
-                    Some(sig) => crashed.push((shard, sig)),
+                    Some(sig) => crashed.push((spec, sig)),
                     None => infra.push(format!("shard {shard}: worker exited with {st}")),
                 }
             }
@@ -283,12 +314,13 @@ fn check(id: &str, tier: Tier, seed: u64) -> i32 {
     // A worker killed by a signal (abort from a memory-safety check, segfault,
     // stack overflow): run that shard again with the crash journal on, to
     // recover the case that kills it.
-    for (shard, sig) in crashed {
+    for (spec, sig) in crashed {
+        let shard = spec.label.clone();
         let journal = tmp.join(format!("{id}-{pid}-{shard}.journal"));
         let out = tmp.join(format!("{id}-{pid}-{shard}.rerun.json"));
         let _ = std::fs::remove_file(&journal);
-        let status = Command::new(&exe)
-            .args(["worker", id, "--tier", tier.name(), "--seed", &seed.to_string(), "--shard", &shard.to_string(), "--of", &nshards.to_string(), "--out"])
+        let status = Command::new(&spec.exe)
+            .args(["worker", id, "--tier", tier.name(), "--seed", &seed.to_string(), "--shard", &spec.shard.to_string(), "--of", &spec.of.to_string(), "--out"])
             .arg(&out)
             .arg("--journal")
             .arg(&journal)
@@ -303,8 +335,8 @@ fn check(id: &str, tier: Tier, seed: u64) -> i32 {
                     id: id.to_string(),
                     tier,
                     seed,
-                    shard,
-                    nshards,
+                    shard: spec.shard,
+                    nshards: spec.of,
                     known: engine::load_known(),
                 };
                 engine::record_crash(&ctx, &mut merged, entry, &format!("signal-{}", st.signal().unwrap()));
@@ -352,6 +384,7 @@ fn check(id: &str, tier: Tier, seed: u64) -> i32 {
         "labels": merged.labels,
         "sub_reports": merged.sub,
         "shards": nshards,
+        "shards_without_debug_assertions": nda_shards,
         "excluded_known_findings": merged.excluded_known,
         "notes": merged.notes,
     });
@@ -553,8 +586,14 @@ fn replay(id: &str, file: &str) -> i32 {
         }
     }
     // The case runs in a child process, so that one which kills the process
-    // (abort, segfault) is still reported as a violation.
-    let exe = std::env::current_exe().expect("own path");
+    // (abort, segfault) is still reported as a violation; a case found by the build without
+    // debug assertions is replayed by that build.
+    let mut exe = std::env::current_exe().expect("own path");
+    let wants_nda = std::fs::read_to_string(file).ok().and_then(|t| serde_json::from_str::<ReplayFile>(&t).ok()).map(|r| r.profile == "nda").unwrap_or(false);
+    let nda_exe = engine::verif_root().join("harness/target/nda/vp");
+    if wants_nda && nda_exe.exists() && engine::build_profile() != "nda" {
+        exe = nda_exe;
+    }
     let status = Command::new(exe).args(["replay-child", id, file]).stdin(Stdio::null()).status();
     use std::os::unix::process::ExitStatusExt;
     match status {
